@@ -299,13 +299,38 @@ func c11Pool(c *Ctx) {
 			if k == "ret#0" {
 				ok = true
 				for _, s := range v {
-					if s != "nil" && !strings.HasPrefix(s, "bytes.Clone(") {
+					if s != "nil" && !strings.HasPrefix(s, "bytes.Clone(") && !clonesViaHelper(c, f, s) {
 						ok = false
 					}
 				}
 			}
 		}
 		c.Check(ok, "C11.pool", funcKey(f)+" · result", f.Pos(), "returns nil or bytes.Clone of the buffer", fmt.Sprintf("returns a slice that aliases the pooled buffer: %v", rs["ret#0"]))
+	}
+	// the shared buffer is emptied before anything is written (a pooled encoder may hold the partial output of an earlier failed Encode)
+	for _, m := range []string{"Encode", "EncodeMany"} {
+		f := c.Fn(typesPkg, "Encoder."+m)
+		if f == nil {
+			continue
+		}
+		var reset ssa.Instruction
+		allInstrs(f, func(in ssa.Instruction) {
+			if ci, ok := in.(ssa.CallInstruction); ok && reset == nil {
+				if sc := calleeFunc(ci); sc != nil && sc.String() == "(*bytes.Buffer).Reset" {
+					reset = in
+				}
+			}
+		})
+		ok := reset != nil
+		if ok {
+			// no path from entry reaches encodeStruct (the writer) without passing the reset
+			_, skip := findPath(pathQuery{fn: f, target: func(in ssa.Instruction) bool {
+				sc := calleeFunc2(in)
+				return sc != nil && sc.Name() == "encodeStruct"
+			}, blocker: func(in ssa.Instruction) bool { return in == reset }})
+			ok = !skip
+		}
+		c.Check(ok, "C11.pool", funcKey(f)+" · reset first", f.Pos(), "buffer reset before the first write on every path", "the buffer is not reset before encoding starts: bytes left by an earlier failed Encode on a pooled encoder are prepended to the next encoding")
 	}
 	encM := c.Obj(typesPkg, "Encoder.Encode")
 	encMany := c.Obj(typesPkg, "Encoder.EncodeMany")
@@ -558,4 +583,38 @@ func (c *Ctx) switchFieldTable(rel, name string) (tab map[string]string, defErr 
 		return true
 	})
 	return
+}
+
+
+// clonesViaHelper: the returned shape is a call of a method of the same
+// package all of whose non-nil results are bytes.Clone(...) (a wrapper around the copy).
+func clonesViaHelper(c *Ctx, f *ssa.Function, shape string) bool {
+	found := false
+	allInstrs(f, func(in ssa.Instruction) {
+		call, ok := in.(*ssa.Call)
+		if !ok {
+			return
+		}
+		g := call.Call.StaticCallee()
+		if g == nil || g.Pkg != f.Pkg || !strings.HasPrefix(shape, relName(g.String())+"(") {
+			return
+		}
+		all := true
+		n := 0
+		for k, v := range returnShapes(g) {
+			if k != "ret" && k != "ret#0" {
+				continue
+			}
+			for _, s := range v {
+				n++
+				if s != "nil" && !strings.HasPrefix(s, "bytes.Clone(") {
+					all = false
+				}
+			}
+		}
+		if all && n > 0 {
+			found = true
+		}
+	})
+	return found
 }
